@@ -139,6 +139,7 @@ From Mpc Require Import Gen.Consts Gen.Thresholds Builders.Emit Builders.EmitPro
   Builders.Hamming Builders.Mult Builders.Gmwdiv Builders.Div Builders.EvalFast Builders.RunC07
   %s.
 Import ListNotations.
+From Mpc Require Gen.State Base.StateExpected Base.StateCheck Base.StatePkgs.
 Open Scope N_scope.
 ''' % " ".join("Builders."+f for f in files if f not in ("EmitProof","StructProof"))
 tail='''(* the gate-kind numbering of the correspondence observable agrees with
@@ -147,6 +148,16 @@ Theorem C07_op_enum :
   map op_code [XOR; XNOR; AND; OR; INV] = [circuit_XOR; circuit_XNOR; circuit_AND; circuit_OR; circuit_INV].
 Proof. exact (eq_refl _). Qed.
 Print Assumptions C07_op_enum.
+
+(* STATE INVENTORY (finite obligation on the model regenerated from the source, checked by
+   computation): the struct fields and package-level variables of compiler/circuits as emitted
+   from /repo's current source by harness/gen_state.go (Gen/State.v) are exactly those the
+   models were written against (Base/StateExpected.v); see Base/StateCheck.v. *)
+Theorem C07_state_inventory :
+  Mpc.Base.StateCheck.state_unchanged Mpc.Gen.State.state_inventory Mpc.Base.StateExpected.expected_state
+    Mpc.Base.StatePkgs.pkgs_C07 = true.
+Proof. vm_compute. reflexivity. Qed.
+Print Assumptions C07_state_inventory.
 '''
 open(TH+'Props/C07.v','w').write(hdrtxt+"\n"+"\n".join(body)+"\n"+tail)
 print(len(body)+1,"theorems")
